@@ -8,7 +8,7 @@ MANIFEST_ENTRY = dict(
     technique="TLC model checking of spec/MCWallet.tla (Fork/Restore/Scan/Diverge actions) + TLC-generated behaviours replayed on the real code and chain + TLC trace validation (spec/TraceWallet.tla) against the real chain's UTXO set",
     note=WALLET_NOTE)
 
-PARAMS = dict(quick_cfgs=["MC_C16_quick.cfg", "MC_C16_two.cfg"], thorough_cfgs=["MC_C16.cfg", "MC_C16_b.cfg", "MC_C16_two.cfg"], quick_n=80, thorough_n=500, focus=['scan', 'diverge', 'fork', 'restore'],
+PARAMS = dict(quick_cfgs=["MC_C16_quick.cfg", "MC_C16_two.cfg"], thorough_cfgs=["MC_C16.cfg", "MC_C16_b.cfg", "MC_C16_two.cfg"], quick_n=120, thorough_n=500, focus=['scan', 'diverge', 'fork', 'restore'],
               setup={"nfund": 2, "pad": 3}, assumptions=WALLET_ASSUME, extra_behaviours=[
     # directed: a restore from seed when the last output in chain order is NOT the one with the
     # highest derivation index (the change output of an earlier send is mined after a later coinbase)
